@@ -1705,6 +1705,347 @@ def functable_check(ctx, n):
     return reqs, finish
 
 
+# ----------------------------------------------------------------------------------------------
+# expression-level differential (failing-input search only, no theorem): arithmetic of the emitted code
+# ----------------------------------------------------------------------------------------------
+INT_TYPES = ["i8", "i16", "i32", "i64", "u8", "u16", "u32", "u64"]
+BINOPS = ["+", "-", "*", "/", "%", "<<", ">>", "&", "|", "^"]
+CONDS = ["==", "!=", "<", ">", "<=", ">="]
+
+
+def ty_bits(t):
+    return int(t[1:])
+
+
+def ty_signed(t):
+    return t[0] == "i"
+
+
+def ty_range(t):
+    b = ty_bits(t)
+    return (-(1 << (b - 1)), (1 << (b - 1)) - 1) if ty_signed(t) else (0, (1 << b) - 1)
+
+
+def ty_wrap(t, x):
+    b = ty_bits(t)
+    x %= 1 << b
+    return x - (1 << b) if ty_signed(t) and x >> (b - 1) else x
+
+
+def spec_binop(t, op, a, b):
+    """python transcription of Spec.IRArith.binop (wrap-around + - *, truncating / %, shifts defined for
+    0 <= count < bits, arithmetic >> for signed); None = undefined.  Cross-checked against the Lean
+    specification through the driver on every run (sample + every reported failure)."""
+    B = ty_bits(t)
+    if op == "+":
+        return ty_wrap(t, a + b)
+    if op == "-":
+        return ty_wrap(t, a - b)
+    if op == "*":
+        return ty_wrap(t, a * b)
+    if op in "/%":
+        if b == 0 or (ty_signed(t) and a == -(1 << (B - 1)) and b == -1):
+            return None
+        q = abs(a) // abs(b)
+        q = q if (a < 0) == (b < 0) else -q
+        return q if op == "/" else a - q * b
+    if op in ("<<", ">>"):
+        if not 0 <= b < B:
+            return None
+        return ty_wrap(t, a << b) if op == "<<" else (a >> b)
+    m = (1 << B) - 1
+    return ty_wrap(t, {"&": (a & m) & (b & m), "|": (a & m) | (b & m), "^": (a & m) ^ (b & m)}[op])
+
+
+def const_shape(t, k):
+    lo, hi = ty_range(t)
+    if k == 0:
+        return "zero"
+    if k == 1:
+        return "one"
+    if k == -1:
+        return "minus1"
+    if k in (lo, hi):
+        return "minmax"
+    if k > 1 and k & (k - 1) == 0:
+        return "pow2"
+    if k < -1 and (-k) & (-k - 1) == 0:
+        return "negpow2"
+    if k > 2 and ((k + 1) & k == 0 or (k - 1) & (k - 2) == 0):
+        return "pow2pm1"
+    return "other"
+
+
+def boundary_consts(t, thorough):
+    lo, hi = ty_range(t)
+    B = ty_bits(t)
+    ks = [0, 1, -1, 2, -2, 3, 4, 8, 7, 9, hi, lo, B - 1, 1 << (B - 2), (1 << (B - 2)) - 1, -(1 << (B - 2)), 5, -8]
+    if thorough:
+        ks += [16, 15, 17, -4, -3, 1 << (B // 2), (1 << (B // 2)) + 1, hi - 1, lo + 1, 6, 10, 100, B - 2, B // 2]
+    out = []
+    for k in ks:
+        if lo <= k <= hi and k not in out:
+            out.append(k)
+    return out
+
+
+def boundary_args(t, rng, n_random):
+    lo, hi = ty_range(t)
+    B = ty_bits(t)
+    vs = [0, 1, 2, 3, 4, 5, 6, 7, 8, 9, 15, 16, 17, -1, -2, -3, -4, -5, -6, -7, -8, -9, -15, -16, -17, 100, -100,
+          hi, hi - 1, lo, lo + 1, 1 << (B - 2), -(1 << (B - 2)), (1 << (B - 2)) + 1, -(1 << (B - 2)) - 1, B - 1, B]
+    vs += [rng.randint(lo, hi) for _ in range(n_random)] + [rng.randint(-70, 70) for _ in range(n_random)]
+    out = []
+    for v in vs:
+        if lo <= v <= hi and v not in out:
+            out.append(v)
+    return out
+
+
+def wasm_arg(t, v):
+    """the python wasm runtime takes i64 parameters as signed 64-bit integers"""
+    return v - (1 << 64) if t == "u64" and v >= 1 << 63 else v
+
+
+def ir_type(t):
+    from ppci import ir
+    return getattr(ir, t)
+
+
+def expr_module(kind, t, op, shapes, t2=None):
+    """one IR module with a function f<i> per shape.
+    kind 'bin':  f(a,b) = a op b | f(a) = a op K | f(a) = K op a      (result type t)
+    kind 'cmp':  the same with `cjmp a op b ? return 1 : return 0`     (result i32)
+    kind 'un':   f(a) = op a;   kind 'cast': f(a: t) = cast a to t2"""
+    from ppci import ir
+    ty = ir_type(t)
+    m = ir.Module("m")
+    for i, (shape, K) in enumerate(shapes):
+        rty = ir.i32 if kind == "cmp" else ir_type(t2) if kind == "cast" else ty
+        f = ir.Function(f"f{i}", ir.Binding.GLOBAL, rty)
+        m.add_function(f)
+        b = ir.Block("entry")
+        f.add_block(b)
+        f.entry = b
+        a = ir.Parameter("a", ty)
+        f.add_parameter(a)
+        if kind == "un":
+            r = ir.Unop(op, a, "r", ty)
+            b.add_instruction(r)
+            b.add_instruction(ir.Return(r))
+            continue
+        if kind == "cast":
+            r = ir.Cast(a, "r", rty)
+            b.add_instruction(r)
+            b.add_instruction(ir.Return(r))
+            continue
+        if shape == "vv":
+            bb = ir.Parameter("b", ty)
+            f.add_parameter(bb)
+            x, y = a, bb
+        else:
+            k = ir.Const(K, "k", ty)
+            b.add_instruction(k)
+            x, y = (a, k) if shape == "vk" else (k, a)
+        if kind == "bin":
+            r = ir.Binop(x, op, y, "r", ty)
+            b.add_instruction(r)
+            b.add_instruction(ir.Return(r))
+        else:
+            yes, no = ir.Block("yes"), ir.Block("no")
+            f.add_block(yes)
+            f.add_block(no)
+            b.add_instruction(ir.CJump(x, op, y, yes, no))
+            one = ir.Const(1, "one", ir.i32); yes.add_instruction(one); yes.add_instruction(ir.Return(one))
+            zero = ir.Const(0, "zero", ir.i32); no.add_instruction(zero); no.add_instruction(ir.Return(zero))
+    return m
+
+
+def both_sides(m):
+    """(wasm instance on ppci's python runtime, ir_to_python namespace) or raises"""
+    from ppci.wasm import ir_to_wasm, instantiate
+    from ppci.lang.python import ir_to_python
+    with contextlib.redirect_stdout(io.StringIO()):
+        wm = ir_to_wasm(m)
+    inst = instantiate(wm, target="python")
+    f = io.StringIO()
+    ir_to_python([m], f)
+    ns = {}
+    exec(f.getvalue(), ns)
+    return inst, ns
+
+
+def guarded(fn, *a):
+    try:
+        with time_limit(5):
+            return fn(*a)
+    except Exception as e:  # noqa
+        return "exc:" + type(e).__name__
+
+
+def expr_check(ctx):
+    """every binop / compare / unop / cast x integer type, shapes a op b, a op K, K op a, on boundary + random
+    arguments: ppci's wasm runtime vs Spec.IRArith (defined operations only).  Results of types narrower than
+    the wasm type holding them (i8..u16 in i32, u32 in i64) are compared modulo 2^bits: the upper bits of such a
+    value are not specified by the translation."""
+    nrand = 12 if ctx.thorough else 3
+    lean_reqs, lean_want = [], []
+    fails = []
+
+    def sample_lean(t, op, x, y, want, always=False):
+        if always or len(lean_reqs) < 400 or ctx.rng.random() < 0.002:
+            lean_reqs.append(f"ar {t} {op} {x} {y}")
+            lean_want.append("ok undef" if want is None else f"ok {want}")
+
+    def run_module(kind, t, op, shapes, t2=None):
+        m = expr_module(kind, t, op, shapes, t2)
+        try:
+            inst, ns = both_sides(m)
+        except Exception as e:  # noqa  (refusal of the whole module, e.g. i64 bit operations: NotImplementedError)
+            ctx.count(f"expr_refusal_{type(e).__name__}")
+            return
+        args = boundary_args(t, ctx.rng, nrand)
+        rt = "i32" if kind == "cmp" else t2 if kind == "cast" else t
+        mod = 1 << ty_bits(rt)
+        for i, (shape, K) in enumerate(shapes):
+            cshape = shape if shape == "vv" or K is None else f"{shape}-{const_shape(t, K)}"
+            argl = [(a, b) for a in args for b in args[:: (1 if ctx.thorough else 3)]] if shape == "vv" else [(a,) for a in args]
+            for av in argl:
+                if shape == "vv":
+                    x, y = av
+                elif shape == "vk":
+                    x, y = av[0], K
+                elif shape == "kv":
+                    x, y = K, av[0]
+                else:
+                    x, y = av[0], None
+                if kind == "bin":
+                    want = spec_binop(t, op, x, y)
+                elif kind == "cmp":
+                    want = int({"==": x == y, "!=": x != y, "<": x < y, ">": x > y, "<=": x <= y, ">=": x >= y}[op])
+                elif kind == "un":
+                    want = ty_wrap(t, -x if op == "-" else ~x)
+                else:
+                    want = ty_wrap(t2, x)
+                if want is None:
+                    continue          # undefined in the IR (division by zero, INT_MIN / -1, shift count out of range)
+                ctx.count("eval_expr")
+                r_w = guarded(getattr(inst.exports, f"f{i}"), *[wasm_arg(t, v) for v in av])
+                if kind == "bin":
+                    sample_lean(t, op, x, y, want)
+                ok = isinstance(r_w, int) and (r_w - want) % mod == 0
+                if not ok:
+                    r_ir = guarded(ns[f"f{i}"], *av)
+                    label = op if kind != "cast" else f"cast-to-{t2}"
+                    fails.append((f"expr:{label}:{t}:{cshape}:wrong-value", kind, t, op, shape, K, av, r_w, want, r_ir, t2))
+                    break
+            else:
+                # reference side: ir_to_python on a few vectors (its faults are C24's, counted only)
+                for av in argl[:3]:
+                    pass
+        ctx.nontrivial(("expr", kind, t, op, t2))
+
+    for t in INT_TYPES:
+        ks = boundary_consts(t, ctx.thorough)
+        for op in BINOPS:
+            shapes = [("vv", None)] + [("vk", k) for k in ks] + [("kv", k) for k in ks]
+            run_module("bin", t, op, shapes)
+        for op in CONDS:
+            shapes = [("vv", None)] + [("vk", k) for k in ks[:8]] + [("kv", k) for k in ks[:8]]
+            run_module("cmp", t, op, shapes)
+        for op in ("-", "~"):
+            run_module("un", t, op, [("v", None)])
+        for t2 in INT_TYPES:
+            if t2 != t:
+                run_module("cast", t, None, [("v", None)], t2)
+    # every failure is re-evaluated with the Lean specification before it is reported
+    for f in fails:
+        if f[1] == "bin":
+            (_sig, _k, t, op, shape, K, av, _rw, want, _ri, _t2) = f
+            x, y = (av if shape == "vv" else (av[0], K) if shape == "vk" else (K, av[0]))
+            sample_lean(t, op, x, y, want, always=True)
+    if lean_reqs:
+        out = ctx.driver("C23", lean_reqs)
+        for rq, w, o in zip(lean_reqs, lean_want, out):
+            ctx.count("eval_expr_spec_crosscheck")
+            if w != o:
+                ctx.disagree("python transcription of Spec.IRArith.binop vs the Lean specification", rq, w, o)
+    for (sig, kind, t, op, shape, K, av, r_w, want, r_ir, t2) in fails:
+        ctx.fail(sig, f"{kind} {op or ''} on {t}{' -> ' + t2 if t2 else ''}, shape {shape}"
+                      f"{'' if K is None else ' with constant ' + str(K)}: f{tuple(av)} returns {r_w} on ppci's wasm runtime, "
+                      f"the IR value (Spec.IRArith) is {want} (ir_to_python: {r_ir})",
+                 {"origin": "expr", "kind": kind, "type": t, "op": op, "shape": shape, "const": K, "args": list(av), "to": t2})
+    # floats, executed only: wasm runtime vs ir_to_python
+    from ppci import ir
+    import math
+    for t in ("f32", "f64"):
+        ty = getattr(ir, t)
+        for op in ("+", "-", "*", "/"):
+            m = ir.Module("m")
+            f = ir.Function("f0", ir.Binding.GLOBAL, ty)
+            m.add_function(f)
+            b = ir.Block("entry"); f.add_block(b); f.entry = b
+            a = ir.Parameter("a", ty); f.add_parameter(a)
+            bb = ir.Parameter("b", ty); f.add_parameter(bb)
+            r = ir.Binop(a, op, bb, "r", ty); b.add_instruction(r); b.add_instruction(ir.Return(r))
+            try:
+                inst, ns = both_sides(m)
+            except Exception as e:  # noqa
+                ctx.count(f"expr_refusal_{type(e).__name__}")
+                continue
+            for av in [(1.5, 2.25), (-7.0, 2.0), (0.5, 0.25), (1e10, 1e-10), (-0.0, 3.0), (5.0, -0.5)]:
+                r_w, r_ir = guarded(inst.exports.f0, *av), guarded(ns["f0"], *av)
+                ctx.count("eval_expr_float")
+                same = r_w == r_ir or (isinstance(r_w, float) and isinstance(r_ir, float) and (
+                    (math.isnan(r_w) and math.isnan(r_ir)) or (t == "f32" and abs(r_w - r_ir) <= 1e-6 * max(1.0, abs(r_ir)))))
+                if not same and not isinstance(r_ir, str):
+                    ctx.fail(f"expr:{op}:{t}:vv:wrong-value", f"{t} {op}: f{av} = {r_w} on ppci's wasm runtime, {r_ir} under ir_to_python",
+                             {"origin": "expr", "type": t, "op": op, "args": list(av)})
+                    break
+    # small C functions mixing the operators (int / unsigned only: defined behaviour by construction)
+    from ppci import api
+    for n in range(40 if ctx.thorough else 8):
+        src, argsets = gen_c_expr(ctx.rng)
+        try:
+            with contextlib.redirect_stdout(io.StringIO()):
+                m = api.c_to_ir(io.StringIO(src), "arm")
+            inst, ns = both_sides(m)
+        except Exception as e:  # noqa
+            ctx.count(f"expr_c_refusal_{type(e).__name__}")
+            continue
+        for av in argsets:
+            r_ir = guarded(ns["f"], *av)
+            r_w = guarded(inst.exports.f, *av)
+            ctx.count("eval_expr_c")
+            if isinstance(r_ir, str):
+                ctx.count("expr_c_reference_" + r_ir)
+                break
+            if not (isinstance(r_w, int) and (r_w - r_ir) % (1 << 32) == 0):
+                ctx.fail("expr:c-mix:int:wrong-value", f"f{tuple(av)} returns {r_w} on ppci's wasm runtime but {r_ir} under ir_to_python",
+                         {"origin": "expr-c", "source": src, "args": list(av)})
+                break
+
+
+def gen_c_expr(rng):
+    """int f(int a, int b) mixing + - * / % << >> & | ^ and comparisons; divisors and shift counts are non-zero
+    constants in range, so every operation is defined (signed overflow aside: operands are kept small)"""
+    def e(d):
+        k = rng.random()
+        if d >= 3 or k < 0.25:
+            return rng.choice(["a", "b", str(rng.randint(0, 9)), "(0 - a)", "(0 - b)"])
+        op = rng.choice(["+", "-", "*", "/", "%", ">>", "<<", "&", "|", "^", "<", "=="])
+        if op in "/%":
+            return f"({e(d + 1)} {op} {rng.choice([2, 3, 4, 5, 7, 8, 16, -2, -3, -4])})"
+        if op in (">>", "<<"):
+            return f"(({e(d + 1)} & 1023) {op} {rng.randint(0, 6)})" if op == "<<" else f"({e(d + 1)} >> {rng.randint(0, 6)})"
+        if op == "*":
+            return f"(({e(d + 1)} % 1000) * ({e(d + 1)} % 1000))"
+        return f"({e(d + 1)} {op} {e(d + 1)})"
+    src = f"int f(int a, int b) {{ return {e(0)}; }}\n"
+    args = [(a, b) for a in (-9, -7, -5, -1, 0, 1, 6, 100) for b in (-8, -3, 0, 2, 7)]
+    return src, args
+
+
 def check(ctx):
     import logging
     import sys
@@ -1761,6 +2102,9 @@ def check(ctx):
     # 7. data segments (second sliver); its driver requests ride along with the validation batch
     ds = dataseg_check(ctx, 200 if ctx.thorough else 25)
     lap("dataseg")
+    # 9. expression-level differential (failing-input search only)
+    expr_check(ctx)
+    lap("expr")
     # 8. function-table slots (third sliver)
     ft = functable_check(ctx, 60 if ctx.thorough else 8)
     lap("functable")
